@@ -4,6 +4,11 @@ use crate::proto::*;
 use serde::de::{self, DeserializeSeed, Deserializer, EnumAccess, MapAccess, SeqAccess, VariantAccess, Visitor};
 use std::fmt;
 
+thread_local! {
+    /// when set, fixed-size positions are requested the way a derived tuple struct requests them
+    pub static TUPLE_AS_STRUCT: std::cell::Cell<bool> = const { std::cell::Cell::new(false) };
+}
+
 #[derive(Clone, Debug, PartialEq)]
 pub enum Ty {
     Bool,
@@ -148,7 +153,8 @@ impl<'de, 'a> DeserializeSeed<'de> for Seed<'a> {
             Ty::Bytes => d.deserialize_byte_buf(V(ty)),
             Ty::Option(_) => d.deserialize_option(V(ty)),
             Ty::Seq(_) => d.deserialize_seq(V(ty)),
-            Ty::Tuple(ts) => d.deserialize_tuple(ts.len(), V(ty)),
+            // derived tuple STRUCTS call `deserialize_tuple_struct`; the typed model has one fixed-size sequence position
+            Ty::Tuple(ts) => if TUPLE_AS_STRUCT.with(|f| f.get()) { d.deserialize_tuple_struct("TS", ts.len(), V(ty)) } else { d.deserialize_tuple(ts.len(), V(ty)) },
             Ty::Map(..) => d.deserialize_map(V(ty)),
             Ty::Struct(fs, _) => {
                 let names: Vec<&'static str> = fs.iter().map(|f| f.0).collect();
